@@ -237,6 +237,8 @@ pub struct ProtocolSet {
     fallback_names: HashMap<ProtocolName, ProtocolName>,
     /// Connection keep-alive settings for both main & fallback protocol names.
     keep_alives: HashMap<ProtocolName, SubstreamKeepAlive>,
+    /// Whether the connection has already been reported closed.
+    closed_reported: bool,
 }
 
 impl ProtocolSet {
@@ -285,6 +287,7 @@ impl ProtocolSet {
             fallback_names,
             keep_alives,
             connection: ConnectionHandle::new(connection_id, tx),
+            closed_reported: false,
         }
     }
 
@@ -433,6 +436,11 @@ impl ProtocolSet {
         peer: PeerId,
         connection_id: ConnectionId,
     ) -> crate::Result<()> {
+        // A connection is reported closed exactly once, whichever exit path gets here first.
+        if std::mem::replace(&mut self.closed_reported, true) {
+            return Ok(());
+        }
+
         let mut futures = self
             .protocols
             .iter()
